@@ -332,16 +332,17 @@ Section FixedLibEv.
   Definition has_chain (l : list entry) (b : block) : Prop :=
     exists pP, chain l (bid b) (ri r0) (pP ++ [mkEntry b false]).
 
-  Inductive StepKind (s s' : fstate) (S S' : cstack) (b : block) : Prop :=
-  | SkSame : dropped s b = true \/ In (bid b) (keys (store (db s))) -> s' = s -> S' = S -> StepKind s s' S S' b
+  Inductive StepKind (s s' : fstate) (S S' : cstack) (b : block) (evs : list event) : Prop :=
+  | SkSame : dropped s b = true \/ In (bid b) (keys (store (db s))) -> s' = s -> S' = S -> evs = [] ->
+             StepKind s s' S S' b evs
   | SkStored : dropped s b = false -> ~ In (bid b) (keys (store (db s))) ->
                keys (store (db s')) = keys (store (db s)) ++ [bid b] ->
                triggers cfg s b = false \/ ~ has_chain (store (db s) ++ [mkEntry b false]) b ->
-               S' = S -> last_sent s' = last_sent s -> StepKind s s' S S' b
+               S' = S -> last_sent s' = last_sent s -> evs = [] -> StepKind s s' S S' b evs
   | SkTrig : dropped s b = false -> ~ In (bid b) (keys (store (db s))) ->
              keys (store (db s')) = keys (store (db s)) ++ [bid b] ->
              triggers cfg s b = true -> has_chain (store (db s) ++ [mkEntry b false]) b ->
-             (exists T, S' = b :: T) -> StepKind s s' S S' b.
+             (exists T, S' = b :: T) -> StepKind s s' S S' b evs.
 
   Lemma c04_step_quiet lr S b : c04_step r0 lr S b [] S.
   Proof. exists S, [], [], []. repeat split; constructor. Qed.
@@ -395,7 +396,7 @@ Section FixedLibEv.
 
   Lemma step_ev s S b : Inv s S -> last_lib_seen s = r0 -> In b U ->
     exists s' evs S', fk_step cfg s b = (s', evs, ROk) /\ apply_all (ri r0) S evs = Some S' /\ Inv s' S' /\
-                      last_lib_seen s' = r0 /\ c04_step r0 (lib_stored s) S b evs S' /\ StepKind s s' S S' b.
+                      last_lib_seen s' = r0 /\ c04_step r0 (lib_stored s) S b evs S' /\ StepKind s s' S S' b evs.
   Proof.
     intros HI Hseen Hb.
     destruct (dropped s b) eqn:Hd.
@@ -455,9 +456,9 @@ Section FixedLibEv.
     assert (Hnin : ~ In en pP).
     { pose proof (chain_nodup _ _ _ _ Hwf1 Hc) as Hn. unfold keys in Hn. rewrite map_app in Hn.
       intros Hin. refine (nodup_app_disj _ _ (key en) Hn _ _); [apply in_map; exact Hin | left; reflexivity]. }
-    assert (Hkind : forall s3, keys (store (db s3)) = keys (store (db s1)) ->
-                    StepKind s s3 S (rev (map eb (pP ++ [en]))) b).
-    { intros s3 Hk3. apply SkTrig; auto.
+    assert (Hkind : forall s3 evs, keys (store (db s3)) = keys (store (db s1)) ->
+                    StepKind s s3 S (rev (map eb (pP ++ [en]))) b evs).
+    { intros s3 evs Hk3. apply SkTrig; auto.
       - rewrite Hk3. exact Hk1.
       - exists pP. exact Hc.
       - rewrite map_app, rev_app_distr. cbn [map rev app eb en]. eauto. }
@@ -528,7 +529,7 @@ Section FixedLibEv.
     destruct (i_lib _ _ _ _ HI) as [Hl _]. rewrite Hl in Hd. pose proof (L_num b Hb E). lia.
   Qed.
 
-  Lemma lib_stored_step s s' S S' b seen : Inv s S -> In b U -> StepKind s s' S S' b ->
+  Lemma lib_stored_step s s' S S' b evs seen : Inv s S -> In b U -> StepKind s s' S S' b evs ->
     lib_stored s = lib_received r0 seen -> lib_stored s' = lib_received r0 (b :: seen).
   Proof.
     intros HI Hb Hk Hlr. apply bool_eq_iff. rewrite lib_stored_in, lib_received_in.
@@ -539,7 +540,7 @@ Section FixedLibEv.
     { intros s2 ->. rewrite in_app_iff, Hold. cbn [In]. split.
       - intros [(x & Hx & E)|[E|[]]]; [exists x; auto | exists b; auto].
       - intros (x & [<-|Hx] & E); [right; left; exact E | left; exists x; auto]. }
-    destruct Hk as [Hc -> _| _ _ Hk' _ _ _ | _ _ Hk' _ _ _]; [|apply Hnw; exact Hk'|apply Hnw; exact Hk'].
+    destruct Hk as [Hc -> _ _| _ _ Hk' _ _ _ _ | _ _ Hk' _ _ _]; [|apply Hnw; exact Hk'|apply Hnw; exact Hk'].
     rewrite Hold. split.
     - intros (x & Hx & E). exists x. split; [right; exact Hx | exact E].
     - intros (x & [<-|Hx] & E); [|exists x; auto].
@@ -556,7 +557,7 @@ Section FixedLibEv.
     cbn [fk_run]. rewrite Hstep. cbn [c04_run]. split; [reflexivity|]. exists S'. split.
     - rewrite <- Hlr. exact Hc04.
     - apply IH; [exact HI' | exact Hseen' | intros x Hx; apply Hh; right; exact Hx |].
-      exact (lib_stored_step s s' S S' b seen HI (Hh b (or_introl eq_refl)) Hkind Hlr).
+      exact (lib_stored_step s s' S S' b evs seen HI (Hh b (or_introl eq_refl)) Hkind Hlr).
   Qed.
 
   Theorem fixed_lib_events h : (forall b, In b h -> In b U) ->
